@@ -183,6 +183,17 @@ class FilReader(Filterbank):
         if skipback >= gulp:
             msg = f"readsamps ({gulp}) must be > skipback ({skipback})"
             raise ValueError(msg)
+        if (
+            start + nsamps == self.header.nsamples
+            and self.header.nsamples * self.samp_stride
+            != self._file.sinfo.get_combined("datalen")
+        ):
+            # bytes beyond the last whole sample: truncated or corrupted file
+            msg = (
+                f"File data length is not a whole number of samples "
+                f"({self.header.nsamples} samples of {self.samp_stride} bytes)"
+            )
+            raise ValueError(msg)
 
         # Here we set the allocator and allocate the readinto buffer
         allocator = bytearray if allocator is None else allocator
@@ -218,8 +229,13 @@ class FilReader(Filterbank):
                 f"read_plan: Reading block {ii}/{nreads}, {block} elements, "
                 f"with skipback={skip}",
             )
-            nbytes = self._file.creadinto(read_buffer, unpack_buffer)
             expected_nbytes = int(block * self.chan_stride)
+            # Read exactly this block: the buffers hold a full gulp, and the last
+            # block of a range that stops before the end of the stream is shorter.
+            nbytes = self._file.creadinto(
+                memoryview(read_buffer)[:expected_nbytes],
+                None if unpack_buffer is None else memoryview(unpack_buffer)[:block],
+            )
             if nbytes != expected_nbytes:
                 msg = (
                     f"Unexpected number of bytes read from file {nbytes} (actual) "
